@@ -296,6 +296,27 @@ def gen_spurious(rng, cfg=None):
     return {"cfg": case["cfg"], "frames": frames, "family": "spurious_empty"}
 
 
+def gen_two_trackers(rng, cfg=None):
+    """Scene family `two_trackers` (seeded C10-r7m2): a `separated` scene for tracker A; after k ≥ 1 frames a
+    fresh tracker B (same or another configuration) is created in the same process and tracks 1–3 frames of
+    its own animals, then A continues.  A's animals must keep their ids AND their `sio.Track` objects; B must
+    be consistent within itself.  (On HEAD the id→Track map is one dict shared by all trackers of the process,
+    so B's id 0 is A's Track object for id 0: identity is judged per tracker, which is what the property
+    speaks about.)"""
+    case = gen_scene(rng, cfg=cfg)
+    F = len(case["frames"])
+    cfg_b = dict(rng.choice(all_configs()), window_size=rng.choice([1, 3, 5]), instance_score_threshold=0.0)
+    if rng.random() < 0.4:
+        cfg_b = dict(case["cfg"])
+    nb = rng.choice([1, 2, 3])
+    case["second_tracker"] = {
+        "after": rng.randint(1, max(1, F - 1)), "cfg": cfg_b,
+        "frames": [[[700.0 + k / 2, 700.0, 0.9, 9, 16], [800.0, 700.0 + k / 2, 0.9, 8, 20]][:rng.choice([1, 2])]
+                   for k in range(nb)]}
+    case["family"] = "two_trackers"
+    return case
+
+
 def gen_circle(rng, cfg=None, laps_frames=100):
     """Scene family `circle` (seeded C10-r2m3): animals at opposite ends of a circle of radius 100 px
     walk around it (4.5° ≈ 7.9 px per frame) for more than a full lap, so each one walks over ground
@@ -537,7 +558,7 @@ def main(chk):
     chk.build_and_audit()
     c09.setup()
     fixes = c09.replay_witnesses(chk, pid_map={"F-C09a": "F-C10a", "F-C09b": "F-C10b", "F-C09c": None,
-                                                 "F-C09d": None})
+                                                 "F-C09d": None, "F-C09e": None})
     for fid_, ok in zip(["F-C09a", "F-C09b", "F-C09c", "F-C09d"], fixes):
         if not ok:
             # every C10 theorem is about `Fixes.repaired`: on this tree the repaired behaviour is REQUIRED
@@ -572,6 +593,11 @@ def main(chk):
         cases.append(gen_hidden(chk.rng, cfg=cfg))
     for _ in range(chk.n(30, 500)):
         cases.append(gen_hidden(chk.rng))
+    # a second tracker started mid-video in the same process (seeded C10-r7m2)
+    for cfg in all_configs():
+        cases.append(gen_two_trackers(chk.rng, cfg=cfg))
+    for _ in range(chk.n(20, 300)):
+        cases.append(gen_two_trackers(chk.rng))
     # spurious detections without visible keypoints next to the real animals (seeded C10-r5m2); oracle only
     for cfg in all_configs():
         cases.append(gen_spurious(chk.rng, cfg=cfg))
@@ -627,6 +653,10 @@ def main(chk):
                 first = (f, d, impl_fields(case, fr), mo[f] if f < len(mo) else None)
                 break
         bad = oracle(case, frames)
+        for k, fr in enumerate(frames):     # the interleaved second tracker: consistent within itself
+            if fr.get("second") and not bad:
+                sb = {"cfg": case["second_tracker"]["cfg"], "frames": case["second_tracker"]["frames"]}
+                bad = [(k, "second tracker: " + w) for _, w in oracle(sb, fr["second"])]
         if bad:
             sigs = c10_signatures(case, frames, bad)
             small = shrink_scene(case, bad[0][0], sigs) if len(chk.failing) < 4 else case
